@@ -23,12 +23,12 @@ CHECKS = {
    category="exploration", design_ref="5.C01",
    technique="deterministic simulation (faults off): seeded scheduler over producer/consumer histories on long-lived UperWriter/UperReader, reference-model oracle",
    text="Seeded search over histories: 1-3 producer/consumer pairs append streams of zoo messages to long-lived writers, snapshot and poll at scheduler-chosen instants and resume from saved bit offsets; every decoded value must equal the sent one (PartialEq) and consume exactly its bit extent, closed streams must end with 0 bits remaining, slack bytes / garbage padding after the declared length must be invisible. Evidence, not proof: the type dimension is the finite zoo, values and schedules are sampled (about 1.2M runs quick, 50M thorough, in two build profiles).",
-   note="Trusted: the harness's GenReader/TreeWriter over the public descriptor traits, PartialEq of generated types, rustc. Assumed: values reachable through public constructors; zoo types stand for 'every accepted type'. Scenarios inside the domain predicate of the open known findings D5 (>= 16384-element lists / restricted strings) and D7 (open-type payload >= 16384 octets) are re-drawn; their pinned replays are re-run instead."),
+   note="Trusted: the harness's GenReader/TreeWriter over the public descriptor traits, PartialEq of generated types, rustc. Assumed: values reachable through public constructors; zoo types stand for 'every accepted type'. Scenarios inside the domain predicate of the open known finding D7 (open-type payload >= 16384 octets) are re-drawn; its pinned replays are re-run instead. The zoo (about 590 types) is hand-written groups plus generated modules and generated version chains (tools/gen_zoo.py, tools/gen_rchains.py)."),
  "C04": dict(
    category="fault_enumeration", design_ref="5.C04",
    technique="deterministic simulation with fault injection on the wire and under io::Read; out-of-process abort/hang detection; allocator seam",
    text="Seeded fault sequences (1-3 of: bit flip, declared-length truncation, torn bytes, extension, byte/bit insertion and deletion, overwrite, splice, random bytes, cross-type decode; under the DER reader also short reads, EINTR, EOF@k, error@k) on deliveries of UPER message streams, protobuf messages and DER item streams, with fault positions biased to flags/indices/length determinants located by a clean TraceBits pass. Oracles O1 no panic, O2 no abort/stack overflow/hang (child processes, watchdog), O3 allocation budget via a counting global allocator, O4 no Ok past the declared length and no slack-dependent Ok, O5 accessors callable after a failed read; the unaffected prefix stays under the exact oracle. Two build profiles (overflow/debug assertions on, and plain release).",
-   note="Trusted: harness fault process and allocator wrapper. Assumed: zoo target types; hard I/O errors other than EOF and reads after a failed read are outside the statement (diagnostics only); allocation budget 32 MiB + 8192 x input bytes is sound because hostile zoo lists have elements of >= 1 bit."),
+   note="Trusted: harness fault process and allocator wrapper. Assumed: zoo target types; hard I/O errors other than EOF and reads after a failed read are outside the statement (diagnostics only); allocation budget 32 MiB + 32768 x input bytes is sound because list elements of the decoding targets take >= 1 bit (types with unbounded lists of zero-bit elements are annotated @zeroamp and are not decoding targets of corrupted deliveries, DESIGN 5.C04)."),
  "C11": dict(
    category="exploration", design_ref="5.C11",
    technique="deterministic simulation of operation histories on bit stores against a Vec<bool> reference model, with capacity and short-source faults",
@@ -63,7 +63,7 @@ CHECKS = {
    category="exploration", design_ref="5.C17",
    technique="deterministic simulation of two storage back ends with capacity faults and of io::Read/io::Write objects under the protobuf primitives; reference-model (tree) oracle modulo proto3 default equivalence",
    text="Claimed narrowly for the back-end / I/O dimension. The same zoo value is written through the growable and the fixed-slice back end with a drawn capacity (exact fit, generous, one short, smaller, zero): whenever a back end reports Ok its as_bytes / len_written / into_bytes_vec must equal the other's; the bytes must read back proto-equal to the original. The ProtoWrite/ProtoRead primitives run over FaultyWrite/FaultyRead pipes with short transfers and EINTR and must round trip exactly consuming exactly the bytes produced.",
-   note="Trusted: structural proto3 default equivalence on value trees (at least as coarse as ProtobufEq). Values in valid mode only; values in the domain of the open findings D11 (list in list), D12 (list in CHOICE), D15 (NULL in list), D17 (NULL alternative) are skipped and represented by pinned replays."),
+   note="Trusted: structural proto3 default equivalence on value trees (at least as coarse as ProtobufEq). Values in valid mode only; values in the domain of the open findings D11 (list in list) and D12 (list in CHOICE) are skipped and represented by pinned replays."),
 }
 
 def main():
